@@ -195,7 +195,7 @@ func init() {
 			}
 			return []*Result{c.RuleSiblingLocator(), c.RuleCompareVerdict(), keyHas(inFns(c.RuleRxGroups(), both, 2), 2, "regex.RuleRxRegex"),
 				inFns(c.RuleErrFlags(), c.cmdFns("compare"), 0), c.RuleTemplate(c.cmdFns("update")), inFns(c.RuleRxRebuild(), c.cmdFns("update"), 1),
-				inFns(c.RuleNarrow(), both, 2), c.RuleSiblingRuleId(), c.RuleSplitJoinFrame(), c.RuleIsoGlobal("update", "compare"), inPkg(c.RuleMapOrder(), 2, "regex/parser"), c.RuleErrWrap(), c.RuleValidateStore(), c.RuleWriteReached("update"), c.RuleLogStderr(), c.RuleStdoutPure(), c.RuleRxGrammar(), c.RuleWalkSkip("update", "compare"), inFns(c.RuleValidate(), c.cmdFns("update"), 1), c.RulePrintfConst(), keyHas(c.RuleResolve(), 1, "input of the assembler"), c.RuleExactCompare(), c.RulePatternPin("regex.RuleRxRegex", "regex.SecRuleRegex")}
+				inFns(c.RuleNarrow(), both, 1), c.RuleSiblingRuleId(), c.RuleSplitJoinFrame(), c.RuleIsoGlobal("update", "compare"), inPkg(c.RuleMapOrder(), 2, "regex/parser"), c.RuleErrWrap(), c.RuleValidateStore(), c.RuleWriteReached("update"), c.RuleLogStderr(), c.RuleStdoutPure(), c.RuleRxGrammar(), c.RuleWalkSkip("update", "compare"), inFns(c.RuleValidate(), c.cmdFns("update"), 1), c.RulePrintfConst(), keyHas(c.RuleResolve(), 1, "input of the assembler"), c.RuleExactCompare(), c.RulePatternPin("regex.RuleRxRegex", "regex.SecRuleRegex")}
 		})
 
 	prop("C13", "other",
